@@ -724,6 +724,28 @@ libChkHeader(Lib lib)
 		}
 	}
 
+	/*
+	 * Every section is written for every unit, except the two position
+	 * sections, which come together or not at all.  A section name that
+	 * turned into another one is found here, before the bytes of one
+	 * section are decoded as if they were another's.
+	 */
+	{
+		LibSectName n;
+		for( n = LIB_NAME_START; n < LIB_NAME_LIMIT; n += 1 ) {
+			if( n == LIB_Pos || n == LIB_PosTbl ) continue;
+			if( !(libNameIndex(lib, n) < lib->hdr.numSect) ) {
+				libError(lib, ALDOR_E_LibBadSectName);
+				return false;
+			}
+		}
+		if( (libNameIndex(lib, LIB_Pos) < lib->hdr.numSect) !=
+		    (libNameIndex(lib, LIB_PosTbl) < lib->hdr.numSect) ) {
+			libError(lib, ALDOR_E_LibBadSectName);
+			return false;
+		}
+	}
+
 #if 0
 	/* Check the section indices. */
 	for( n = LIB_NAME_START; n < LIB_NAME_LIMIT; n += 1 ) {
